@@ -48,6 +48,15 @@ def _kw_pairs(p):
 def run_case(case):
     p = util.program_case(case)
     std, mode = case["std"], case["mode"]
+    if mode == "semi":
+        # statements that carry BOTH a label and a construct name, so that they also occur
+        # behind a `;` (the label of a named opener stands in front of the name)
+        lab = 9000
+        r0 = random.Random(case["seed"] ^ 0x5E1)
+        for st_ in p.flat():
+            if st_.role == "open" and st_.cname and st_.label is None and st_.cons not in ("labeldo", "nonblockdo") and r0.random() < 0.6:
+                lab += 1
+                st_.label = str(lab)
     res = {"key": [case["seed"], std, mode], "counts": {"mode:" + mode: 1}, "findings": []}
     canon = p.text()
     o0 = real.try_parse(canon, std=std, ignore_comments=True, free=True)
